@@ -40,6 +40,7 @@ fn dispatch(cmd: &str, args: &[&str]) -> String {
     match cmd {
         "DEC" => wire::dec(args),
         "DECS" => wire::decs(args),
+        "DECPAR" => wire::decpar(args),
         "ENC" => wire::enc(args),
         "RT" => wire::rt(args),
         "CMP" => lang::cmp(args),
